@@ -1,6 +1,6 @@
 /* C04: authorization is enforced — the harness is the client side of the session protocol (OpenSSL),
  * the Lean checker recomputes everything independently (Crypto.Sha: cpHash, rpHash, HMAC, KDFa). */
-typedef struct { uint32_t h; uint8_t nonceTPM[32]; uint8_t nonceCaller[32]; uint8_t key[32]; int keylen; uint32_t bind; char bindAuth[8]; } HSess;
+typedef struct { uint32_t h; uint8_t nonceTPM[32]; uint8_t nonceCaller[32]; uint8_t key[32]; int keylen; uint32_t bind; char bindAuth[8]; uint8_t stale[32]; int have_stale; } HSess;
 
 static void c04_sha256(const uint8_t *a, size_t an, const uint8_t *b2, size_t bn, const uint8_t *c, size_t cn, uint8_t out[32]) {
     EVP_MD_CTX *m = EVP_MD_CTX_new(); EVP_DigestInit_ex(m, EVP_sha256(), NULL);
@@ -21,7 +21,7 @@ static int c04_start(Buf *b, HSess *s, uint32_t bind, const char *bindAuth, int 
     if (r.rc != 0 || r.len < 16 + 32) { tr("sstart rc=%u", r.rc); return -1; }
     s->h = g32(r.p + 10); memcpy(s->nonceTPM, r.p + 16, 32); s->bind = bind; strcpy(s->bindAuth, bindAuth);
     if (bind != RH_NULL) { c04_kdfa((const uint8_t *)bindAuth, (int)strlen(bindAuth), "ATH", s->nonceTPM, 32, s->nonceCaller, 32, s->key); s->keylen = 32; }
-    tr_begin("sstart rc=0 h=%u type=%d bind=%u", s->h, type, bind); trhex("bindauth", (const uint8_t *)bindAuth, strlen(bindAuth)); trhex("nc", s->nonceCaller, 32); trhex("nt", s->nonceTPM, 32); trhex("skey", s->key, s->keylen); tr_end();
+    tr_begin("sstart rc=0 h=%u type=%d bind=%u", s->h, type, bind); trhex("nc", s->nonceCaller, 32); trhex("nt", s->nonceTPM, 32); trhex("skey", s->key, s->keylen); tr_end();
     return 0;
 }
 /* what to corrupt in an otherwise correct authorization */
@@ -35,6 +35,7 @@ static Rsp c04_authcmd(Buf *b, HSess *s, uint32_t cc, uint32_t h1, const uint8_t
     Buf m = {0};
     /* cpHash = H(cc || names || params) */
     b_u32(&m, cc); b_bytes(&m, name1, n1l); if (h2) b_bytes(&m, name2, n2l); b_bytes(&m, params, pl);
+    if (corrupt == K_NAME) m.p[4 + rnd(n1l)] ^= 1 << rnd(8);
     c04_sha256(m.p, m.n, NULL, 0, NULL, 0, cph); b_reset(&m);
     memcpy(key, s->key, s->keylen); kl = s->keylen;
     const char *av = corrupt == K_AUTHVAL ? "WRONG" : entityAuth;
@@ -44,8 +45,7 @@ static Rsp c04_authcmd(Buf *b, HSess *s, uint32_t cc, uint32_t h1, const uint8_t
     uint8_t nc[32]; for (int i = 0; i < 32; i++) nc[i] = rnd(256);
     uint8_t attrs = 0x01;   /* continueSession */
     const uint8_t *ntpm = s->nonceTPM;
-    static uint8_t stale[32]; static int have_stale;
-    if (corrupt == K_STALE_NONCE) { if (!have_stale) corrupt = K_HMAC; else ntpm = stale; }
+    if (corrupt == K_STALE_NONCE) { if (!s->have_stale) corrupt = K_HMAC; else ntpm = s->stale; }
     b_bytes(&m, cph, 32); b_bytes(&m, nc, 32); b_bytes(&m, ntpm, 32); b_u8(&m, attrs);
     c04_hmac(key, kl, m.p, m.n, hm); b_free(&m);
     if (corrupt == K_HMAC) hm[rnd(32)] ^= 1 << rnd(8);
@@ -60,19 +60,11 @@ static Rsp c04_authcmd(Buf *b, HSess *s, uint32_t cc, uint32_t h1, const uint8_t
         b_bytes(b, pm.p, pm.n);
     }
     Rsp r = run(b);
-    memcpy(stale, oldNonceTPM, 32); have_stale = 1;
-    tr_begin("auth what=%s cc=%x corrupt=%d bound=%d rc=%u sh=%u", what, cc, corrupt, boundToEntity, r.rc, s->h);
-    trhex("name1", name1, n1l); trhex("name2", name2, h2 ? n2l : 0); trhex("params", params, pl); trhex("skey", s->key, s->keylen); trhex("eauth", (const uint8_t *)entityAuth, strlen(entityAuth));
-    trhex("nc", nc, 32); trhex("nt", oldNonceTPM, 32); fprintf(g_tr, " attrs=%u", attrs); trhex("hmac_sent", hm, 32);
+    tr_begin("auth what=%s corrupt=%d sh=%u rc=%u", what, corrupt, s->h, r.rc); trhex("req", b->p, b->n); trhex("rsp", r.p, r.len); tr_end();
     if (r.rc == 0 && r.tag == ST_SESSIONS) {
-        /* response: [params] then session area: nonceTPM 2B, attrs u8, hmac 2B */
-        uint32_t psz = g32(r.p + 10); const uint8_t *rp = r.p + 14; const uint8_t *sa = rp + psz;
-        if (14 + psz + 2 + 32 + 1 + 2 + 32 <= r.len && g16(sa) == 32) {
-            trhex("rparams", rp, psz); trhex("rnt", sa + 2, 32); fprintf(g_tr, " rattrs=%u", sa[34]); trhex("rhmac", sa + 37, g16(sa + 35));
-            memcpy(s->nonceTPM, sa + 2, 32);
-        }
+        uint32_t psz = g32(r.p + 10); const uint8_t *sa = r.p + 14 + psz;
+        if (14 + psz + 2 + 32 + 1 + 2 + 32 <= r.len && g16(sa) == 32) { memcpy(s->stale, oldNonceTPM, 32); s->have_stale = 1; memcpy(s->nonceTPM, sa + 2, 32); }
     }
-    tr_end();
     memcpy(s->nonceCaller, nc, 32);
     b_free(&pm);
     return r;
@@ -101,14 +93,17 @@ static void scen_c04(int histories, int rounds) {
           if (r.rc == 0) { kh = g32(r.p + 10); Rd rd = rsp_params(&r, 1); uint16_t l; r_2b(&rd, &l); r_2b(&rd, &l); r_2b(&rd, &l); r_u16(&rd); r_u32(&rd); r_2b(&rd, &l); const uint8_t *nm = r_2b(&rd, &l); if (!rd.err && l <= 34) { memcpy(kname, nm, l); knl = l; } } }
         uint8_t ownname[4]; be32buf(ownname, RH_OWNER);
         uint8_t endname[4]; be32buf(endname, RH_ENDORSEMENT);
-        tr_begin("setup idx=%u kh=%u", idx, kh); trhex("nvname", nvname, nvnl); trhex("kname", kname, knl); trhex("key", key, 16); tr_end();
+        tr_begin("ent handle=%u", RH_OWNER); trhex("name", ownname, 4); trhex("auth", (uint8_t *)ownerAuth, 3); tr_end();
+        tr_begin("ent handle=%u", RH_ENDORSEMENT); trhex("name", endname, 4); trhex("auth", NULL, 0); tr_end();
+        tr_begin("ent handle=%u", idx); trhex("name", nvname, nvnl); trhex("auth", (uint8_t *)"nv1", 3); trhex("nv", (uint8_t *)"0123456789abcdef", 16); tr_end();
+        if (kh) { tr_begin("ent handle=%u", kh); trhex("name", kname, knl); trhex("auth", (uint8_t *)"k1", 2); tr_end(); }
         HSess su, sb; int have_su = c04_start(&b, &su, RH_NULL, "", 0) == 0;     /* unbound */
         int have_sb = c04_start(&b, &sb, RH_OWNER, ownerAuth, 0) == 0;          /* bound to owner */
         int sb_bound_valid = 1;
         uint8_t nvdata[16]; memcpy(nvdata, "0123456789abcdef", 16);
         for (int i = 0; i < rounds && have_su && have_sb; i++) {
             int corrupt = chance(45) ? K_NONE : 1 + rnd(K_NCOUNT - 1);
-            switch (rnd(7)) {
+            switch (rnd(8)) {
             case 0: { /* NV_Read with the index authValue through the unbound HMAC session */
                 uint8_t p[4] = {0, 8, 0, (uint8_t)rnd(8)};
                 c04_authcmd(&b, &su, CC_NV_Read, idx, nvname, nvnl, idx, nvname, nvnl, p, 4, "nv1", 0, corrupt, "nvread-unbound"); break; }
@@ -117,7 +112,7 @@ static void scen_c04(int histories, int rounds) {
                 Rsp r = c04_authcmd(&b, &su, CC_NV_Write, idx, nvname, nvnl, idx, nvname, nvnl, p, 8, "nv1", 0, corrupt, "nvwrite-unbound");
                 if (r.rc == 0) memcpy(nvdata + p[7], p + 2, 4);
                 cmd_begin(&b, ST_SESSIONS, CC_NV_Read); b_u32(&b, idx); b_u32(&b, idx); auth_pw(&b, "nv1", 3); b_u16(&b, 16); b_u16(&b, 0); Rsp rr = run(&b);
-                tr_begin("effect what=nvwrite cmd_rc=%u", r.rc); trhex("expected", nvdata, 16); if (rr.rc == 0) trhex("actual", rr.p + 16, 16); tr_end();
+                tr_begin("effect handle=%u cmd_rc=%u rc=%u", idx, r.rc, rr.rc); if (rr.rc == 0) trhex("actual", rr.p + 16, 16); tr_end();
                 break; }
             case 2: { /* owner-authorised command through the session bound to owner */
                 uint8_t p[1] = {0};
@@ -130,17 +125,28 @@ static void scen_c04(int histories, int rounds) {
                 uint8_t p[2 + 5 + 2] = {0, 5, 'h', 'e', 'l', 'l', 'o', 0, 0x0B};
                 c04_authcmd(&b, &su, CC_HMAC, kh, kname, knl, 0, NULL, 0, p, 9, "k1", 0, corrupt, "key-hmac"); break; }
             case 5: { /* ownerAuth changes (password session); the bound session is no longer bound to the *current* owner auth */
-                if (chance(50)) break;
+                if (chance(85)) break;
                 char na[4]; na[0] = 'o'; na[1] = 'a' + rnd(20); na[2] = '0' + rnd(10); na[3] = 0;
                 cmd_begin(&b, ST_SESSIONS, CC_HierarchyChangeAuth); b_u32(&b, RH_OWNER); auth_pw(&b, ownerAuth, strlen(ownerAuth)); b_2b(&b, na, 3);
                 Rsp r = run(&b);
-                if (r.rc == 0) { strcpy(ownerAuth, na); sb_bound_valid = 0; tr_begin("authchange rc=0"); trhex("newauth", (uint8_t *)na, 3); tr_end(); }
+                if (r.rc == 0 && chance(50)) {   /* a fresh session bound to the new value */
+                    strcpy(ownerAuth, na); tr_begin("authchange handle=%u", RH_OWNER); trhex("auth", (uint8_t *)na, 3); tr_end();
+                    cmd_begin(&b, ST_NO_SESSIONS, CC_FlushContext); b_u32(&b, sb.h); run(&b); tr("sflush h=%u", sb.h);
+                    have_sb = c04_start(&b, &sb, RH_OWNER, ownerAuth, 0) == 0; sb_bound_valid = 1;
+                } else
+                if (r.rc == 0) { strcpy(ownerAuth, na); sb_bound_valid = 0; tr_begin("authchange handle=%u", RH_OWNER); trhex("auth", (uint8_t *)na, 3); tr_end(); }
+                break; }
+            case 6: { /* password authorization: exact, wrong, trailing zeros (stripped by the TPM), prefix */
+                uint8_t pw[8]; int pl = 3; memcpy(pw, "nv1", 3); int v = rnd(5);
+                if (v == 1) pw[rnd(3)] ^= 1 << rnd(8); else if (v == 2) { pw[3] = 0; pw[4] = 0; pl = 5; } else if (v == 3) pl = 2; else if (v == 4) { pw[3] = 'x'; pl = 4; }
+                cmd_begin(&b, ST_SESSIONS, CC_NV_Read); b_u32(&b, idx); b_u32(&b, idx); auth_pw(&b, (char *)pw, pl); b_u16(&b, 8); b_u16(&b, 0);
+                Rsp r = run(&b); tr_begin("auth what=password corrupt=%d sh=0 rc=%u", v == 0 || v == 2 ? 0 : K_AUTHVAL, r.rc); trhex("req", b.p, b.n); trhex("rsp", r.p, r.len); tr_end();
                 break; }
             default: { /* a command with two authorised handles sent with ONE session: the second authorization is missing */
                 if (!kh) break;
                 uint8_t q[4] = {0, 0, 0, 0x10};   /* qualifyingData empty, inScheme NULL */
                 cmd_begin(&b, ST_SESSIONS, 0x14C /* GetTime */); b_u32(&b, RH_ENDORSEMENT); b_u32(&b, kh); auth_pw(&b, "", 0); b_bytes(&b, q, 4);
-                Rsp r = run(&b); tr("twoauth cc=14c sessions=1 rc=%u", r.rc);
+                Rsp r = run(&b); tr_begin("auth what=twoauth-one-session corrupt=%d sh=0 rc=%u", K_MISSING, r.rc); trhex("req", b.p, b.n); trhex("rsp", r.p, r.len); tr_end();
                 break; }
             }
         }
